@@ -203,7 +203,9 @@ def genuine_oserror(e):
     if fn is None:
         return False
     for probe in (lambda: _oo['os.stat'](fn), lambda: _oo['os.close'](_oo['os.open'](fn, os.O_RDONLY | os.O_NONBLOCK)),
-                  lambda: _oo['os.listdir'](fn), lambda: _oo['open'](fn, 'rb').close()):
+                  lambda: _oo['os.listdir'](fn),
+                  # (a blocking open of a named pipe would wait for a writer for ever)
+                  lambda: _oo['os.close'](_oo['os.open'](fn, os.O_RDONLY | os.O_NONBLOCK | getattr(os, 'O_NOCTTY', 0)))):
         try:
             probe()
         except OSError as e2:
